@@ -101,6 +101,11 @@ def build_cases(tier, seed):
         cs.append(("spatial", "Spatial", ("cands", 2), N, {}))
         cs.append(("spatial", "ClusteredSpatial", ("cands", 2), N, {}))
     cs.append(("spatial", "Spatial", ("cands", 3), 1, {}))
+    # positions far from the origin (magnitude 1e7, spread 1e-3): distance comparisons must not lose the spread
+    for N in (1, 2):
+        cs.append(("spatial", "Spatial_far", ("cands", 2), N, {}))
+    cs.append(("spatial", "Spatial_far", ("cands", 3), 1, {}))
+    cs.append(("spatial", "OneDimSpatial_far", ("cands", 3), 2, {}))
     _CASES = cs
     meta = {
         "family": "exact profile laws (N=1,2 ballots; all RNG paths) of name_/short_name_PlackettLuce, name_BradleyTerry, name_Cumulative, "
@@ -585,6 +590,11 @@ def run_spatial(i, model, n, N, cnt, out):
     from votekit import ballot_generator as bg
 
     cands = ["a", "b", "c"][:n]
+    far = model.endswith("_far")
+    label = model
+    model = model.replace("_far", "")
+    grid2 = (1e7, 1e7 + 0.001) if far else (0.0, 1.0)
+    grid1 = (1e7 - 0.001, 1e7, 1e7 + 0.001, 1e7 + 0.002) if far else (-1.0, 0.0, 1.0, 2.0)
 
     # the constructors of Spatial / ClusteredSpatial probe their distributions; that happens outside the explored run (real RNG)
     if model == "OneDimSpatial":
@@ -598,9 +608,9 @@ def run_spatial(i, model, n, N, cnt, out):
 
     def fn():
         if model == "OneDimSpatial":
-            CH.grid = (-1.0, 0.0, 1.0, 2.0)
+            CH.grid = grid1
             return g.generate_profile(N)
-        CH.grid = (0.0, 1.0)
+        CH.grid = grid2
         if model == "Spatial":
             return g.generate_profile(N)
         return g.generate_profile_with_dict({c: (1 if k < N else 0) for k, c in enumerate(cands)})
